@@ -37,6 +37,8 @@ def sub_s():
         "order": st.lists(st.tuples(st.sampled_from(["header.stationId", "stationId", "timestamp"]), st.sampled_from(["asc", "desc"])), max_size=2),
         "notify_ms": st.sampled_from([0, 0, 1, 500, 1000, 1000, 2000, 5000]), "mult": st.sampled_from([None, 0, 1, 1, 1, 2, 4]),
         "bad": st.sampled_from([None] * 10 + ["type", "priority", "interval", "multiplicity"]),
+        # the callback of this subscription unsubscribes another live subscription of the same consumer when it is invoked
+        "kill": st.sampled_from([None] * 6 + [0, 1, 2]),
     })
 
 
@@ -98,9 +100,28 @@ def run_case(case):
         removed_then_attended = False
         pending_removed = False
 
+        on_fire = {}       # sub index -> selector of the other subscription of the same consumer that its callback unsubscribes
+        killed_now = []    # (position in `fired`, sub index) unsubscribed from inside a callback during the current attendance
+
         def mk_cb(idx):
             def cb(resp, idx=idx):
                 fired.append((idx, resp))
+                tgt = None
+                if idx in on_fire and subs[idx]["alive"]:
+                    mates = [j_ for j_, s2 in enumerate(subs) if s2["alive"] and s2["c"] == subs[idx]["c"] and s2["id"] != subs[idx]["id"]]
+                    later = [j_ for j_ in mates if j_ > idx]        # subscribed after this one: attended after it
+                    pool = later or mates
+                    if pool:
+                        tgt = pool[on_fire[idx] % len(pool)]
+                if tgt is not None and subs[tgt]["c"] in consumers:
+                    r_ = ldm.if_ldm_4.unsubscribe_data_consumer(UnsubscribeDataConsumerReq(application_id=subs[tgt]["c"], subscription_id=subs[tgt]["id"]))
+                    if int(r_.result) == 0:
+                        labels.add("unsubscribed-from-inside-a-callback")
+                        for j_, s2 in enumerate(subs):
+                            if s2["alive"] and s2["id"] == subs[tgt]["id"]:
+                                s2["alive"] = False
+                                s2["dead_why"] = "unsubscription"
+                                killed_now.append((len(fired), j_))
             return cb
 
         def now_its_trunc():
@@ -126,12 +147,21 @@ def run_case(case):
                     expected[i] = None          # before the first notification: no verdict
             got = {}
             seen_n = {}
-            for idx, resp in fired:
+            killed_at = {j_: pos_ for pos_, j_ in killed_now}
+            for pos_, (idx, resp) in enumerate(fired):
+                if idx in killed_at and pos_ >= killed_at[idx]:
+                    vs.append(violation(ID, "C14/callback-after-unsubscription", "step %d (%s): subscription %d was unsubscribed (acknowledged) from inside another callback earlier in this attendance and was still notified" % (step, why, idx)))
+                    continue
+                if idx in killed_at:
+                    continue            # notified before it was unsubscribed in this very attendance: fine, and no further verdict on it
                 seen_n[idx] = seen_n.get(idx, 0) + 1
                 if seen_n[idx] > subs[idx].get("copies", 1):
                     vs.append(violation(ID, "C14/callback-twice-in-one-attendance", "step %d (%s): subscription %d notified %d times (%d identical subscriptions)" % (step, why, idx, seen_n[idx], subs[idx].get("copies", 1))))
                 got[idx] = resp
             del fired[:]
+            for j_ in killed_at:
+                expected.pop(j_, None)      # whether it was notified before its unsubscription depends on the attendance order: no verdict
+            del killed_now[:]
             for idx, resp in got.items():
                 s_ = subs[idx]
                 if not s_["alive"]:
@@ -227,6 +257,8 @@ def run_case(case):
                     if r.result != want:
                         vs.append(violation(ID, "C14/subscribe-result-wrong:%s" % want.name.lower(), "step %d: subscribe %r answered %s, expected %s" % (step, {kk: op[kk] for kk in ("c", "bad", "notify_ms", "mult")}, r.result, want)))
                     live = r.result == SubscribeDataobjectsResult.SUCCESSFUL
+                    if live and op.get("kill") is not None:
+                        on_fire[idx] = op["kill"]
                     subs.append({"id": r.subscription_id, "c": op["c"], "q": q, "notify_ms": op["notify_ms"], "mult": mult, "last": now_its_trunc(), "notified_once": False,
                                  "alive": live, "dead_why": "refusal", "req": req_obj, "cb": cb_obj, "copies": 1})
                     if not live:
